@@ -101,6 +101,26 @@ pub fn run<T: Elt>(kind: &str, a: &mut Args, out: &mut Out) {
             guarded(out, |o| { let mut c = p.clone(); c[i] = x; dump(&c, o) });
             guarded(out, |o| { let mut c = p.clone(); c.trim(); dump(&c, o) });
         }
+        // poly.hist <p> <q> <i> <x>: HISTORIES -- a mutating operation followed by another one and then by the views and
+        // operators (every block on a fresh clone of p; a library panic inside a block is its whole answer):
+        //  H1 p[i] = x; trim            -> p, degree, is_zero        H2 trim; trim         -> p, [second trim changed nothing]
+        //  H3 trim; p[i] = x            -> p                         H4 coeffs().len(); coeffs().push(x) -> len, p, degree
+        //  H5 coeffs()[i] = x           -> p                         H6 t = trim p: t+q, t*q, q-t, t(x), t'
+        //  H7 p[i] = x: p(x), p', p*q
+        // (coeffs() -- the mutable view of the coefficient vector -- is public API that no other kind calls)
+        "poly.hist" => {
+            let p = poly::<T>(a); let q = poly::<T>(a); let i = a.usize(); let x = a.s::<T>();
+            let (sp, sq) = (toks(&p), toks(&q));
+            guarded(out, |o| { let mut c = p.clone(); c[i] = x; c.trim(); dump(&c, o); deg(&c, o); o.boolean(c.is_zero()); });
+            guarded(out, |o| { let mut c = p.clone(); c.trim(); let s1 = toks(&c); c.trim(); dump(&c, o); o.boolean(toks(&c) == s1); });
+            guarded(out, |o| { let mut c = p.clone(); c.trim(); c[i] = x; dump(&c, o); });
+            guarded(out, |o| { let mut c = p.clone(); o.usize(c.coeffs().len()); c.coeffs().push(x); dump(&c, o); deg(&c, o); });
+            guarded(out, |o| { let mut c = p.clone(); c.coeffs()[i] = x; dump(&c, o); });
+            guarded(out, |o| { let mut t = p.clone(); t.trim(); dump(&(&t + &q), o); dump(&(&t * &q), o); dump(&(&q - &t), o);
+                               o.s(&t.eval(x)); dump(&t.derivative(), o); });
+            guarded(out, |o| { let mut c = p.clone(); c[i] = x; o.s(&c.eval(x)); dump(&c.derivative(), o); dump(&(&c * &q), o); });
+            check_same(&p, &sp, "a history on a clone"); check_same(&q, &sq, "a history on a clone");
+        }
         // poly.ctor <a> <b> <c> <d>: quadratic(a,b,c), cubic(a,b,c,d), empty()
         "poly.ctor" => {
             let (ca, cb, cc, cd) = (a.s::<T>(), a.s::<T>(), a.s::<T>(), a.s::<T>());
